@@ -585,6 +585,21 @@ def prelude(rep, pid):
         sys.exit(2)
     res = coq_props(pid)
     rep.proof(res)
+    # translator tie at the code level: Tie/Tie_<engine>.v proves that the C leaf functions, re-translated
+    # from the working tree into Gen/CLeaf_gen.v by tools/gen.d/c2coq.py, equal the hand-written model functions
+    try:
+        frag = json.loads((VERIF / "checks" / f"{pid}.manifest.json").read_text())
+        engines = [frag.get("engine", "")] + list(frag.get("tie_engines", []))
+    except Exception:
+        engines = []
+    tie_files = [e for e in engines if (COQ / "theories" / "Tie" / f"Tie_{e}.v").exists()]
+    rep.cov["code_tie_files"] = ["Tie/Tie_%s.v" % e for e in tie_files]
+    for e in tie_files:
+        ok, out = coq_make([f"theories/Tie/Tie_{e}.vo"])
+        if not ok:
+            m = re.findall(r'File "([^"]+)", line (\d+)[^\n]*\n((?:.*\n){0,6})', out)
+            rep.broken.append(("translator", "code tie broken: a C leaf function re-translated from the working tree no longer "
+                               "equals its model function (Tie/Tie_%s.v): %s" % (e, "; ".join(f"{f}:{l}: {' '.join(t.split())[:200]}" for f, l, t in m[:2]) or out[-400:]), None))
     # DESIGN 3.5: no *Spec.v may (transitively) import a *Model.v
     try:
         dep = spec_independence()
